@@ -507,6 +507,24 @@ def main(argv):
                         break
             if kind.startswith("random") and rng.random() < 0.3:
                 split_check("simple_cleaning", a, data, "simple_cleaning")
+        # implementation-only, independent of the Coq/driver status: a line REJECTED INSIDE the character loop (one per
+        # early-exit kind) directly followed by borderline lines; the tool on A++B must equal (tool A)++(tool B) for the
+        # split right after the rejected line (state left behind by the rejected call must not reach the next line)
+        rejected = {"control-character": b"hello wor\x01ld again", "bad-utf8-byte": b"hello wor\xc3ld again", "truncated-utf8": b"good morning\xe2\x82",
+                    "character-run": b"hello woooooooorld", "rejected-after-loop(min-chars)": b"ab"}
+        for mc in (8, 20):
+            a, o = sc_args(mc=mc, mci="1.0")
+            border = [word_line(mc - 1), word_line(mc), word_line(mc - 3, 5), word_line(max(1, mc - 8), 9), b"x" * (mc - 1) + b" y"]
+            for kind, rej in rejected.items():
+                A, B = rej + b"\n", join(border)
+                sa, oa, _ = R.run("simple_cleaning", a, A)
+                sb, ob, _ = R.run("simple_cleaning", a, B)
+                sab, oab, _ = R.run("simple_cleaning", a, A + B)
+                c.count(("sc-leak", mc, kind), bucket="simple_cleaning/rejected-then-borderline/" + kind)
+                if (sa, sb, sab) == (0, 0, 0) and oa + ob != oab:
+                    c.violation("context-dependence: simple_cleaning on A++B differs from (simple_cleaning A)++(simple_cleaning B): a line rejected by %s changes the decision on the following line" % kind,
+                                {"tool": "simple_cleaning", "args": a, "A_hex": A.hex(), "B_hex": B.hex(), "out_A_hex": oa.hex(), "out_B_hex": ob.hex(), "out_AB_hex": oab.hex(),
+                                 "how": "bin/simple_cleaning %s < A; < B; < A++B" % " ".join(a)})
         c.sample({"tool": "simple_cleaning", "args": sc_cases[-1][0], "stdin": repr(sc_cases[-1][2][:100])})
         # -p mode (FilterParallel with 4 files): a pair is kept iff BOTH lines are kept by the single-stream tool
         # (metamorphic on the implementation: per-line decisions cannot depend on the other file)
